@@ -20,14 +20,37 @@
 (* job cancel requested / CANCELED announced by the launcher), owed (a     *)
 (* delivered kill did not do what it owes to a pilot it means).            *)
 (*                                                                         *)
+(* Launching is not one step.  work() takes a bulk (WorkBegin: pilots a    *)
+(* kill named before are dropped), prepares and stages (phase "staging",   *)
+(* no lock), then takes the component lock, submits the jobs (phase        *)
+(* "submit") and registers the pilots (LaunchEnd).  control_cb ->          *)
+(* _kill_pilots takes the same lock: a kill cannot be delivered in phase   *)
+(* "submit", it waits for LaunchEnd and finds the pilots registered.  A    *)
+(* kill delivered while the bulk is staged finds the pilots unknown and    *)
+(* remembers them: intended is that they are looked at again before the    *)
+(* jobs are submitted (LaunchBegin).  The batch layer reports job states   *)
+(* from inside the submission on (JobEnds for a pilot of the bulk in phase *)
+(* "submit"): the launchers know the job by then, every report reaches the *)
+(* pilot it is for (ghosts: rep = pilots whose job reported a final state  *)
+(* while the manager listened, wrong = a report changed another pilot).    *)
+(*                                                                         *)
 (* Deviations (FALSE = intended):                                          *)
 (*   DevFinalFilterFirst : pilots final in the launcher's books are taken  *)
 (*        off the list BEFORE the "empty list means all" default: a kill   *)
 (*        naming only final pilots becomes a kill of all pilots            *)
 (*   DevNoPmgrCheck      : kill messages of other managers are enacted     *)
 (*   DevStopAtUnknown    : an unknown uid ends the handling of the request *)
-(*   DevLaunchPrecancelled : work() launches pilots a kill named before    *)
-(*        they arrived                                                     *)
+(*   DevNoRecheckAtLaunch : the pilots remembered while the bulk was       *)
+(*        staged are not looked at again: they are launched, the kill is   *)
+(*        lost                                                             *)
+(*   DevLaunchOutsideLock : the jobs are submitted without the lock: a     *)
+(*        kill is delivered during the submission, finds the pilot         *)
+(*        unknown, the pilot is registered afterwards - the kill is lost   *)
+(*   DevRegisterAfterSubmit : the PSI/J launcher learns the job id only    *)
+(*        after submit() returned: a state reported from inside submit()   *)
+(*        is dropped                                                       *)
+(*   DevReportForMate : a SAGA job state is reported for some pilot of the *)
+(*        same bulk (late binding callback)                                *)
 (***************************************************************************)
 EXTENDS PilotKillOps, TLC
 
@@ -35,12 +58,19 @@ CONSTANTS Pilots,         \* the pilots of the manager
           Ghost,          \* a uid no manager and no launcher knows
           MaxReq,         \* bound on requests
           MaxCtl,         \* bound on control messages in flight
-          DevFinalFilterFirst, DevNoPmgrCheck, DevStopAtUnknown, DevLaunchPrecancelled
+          DevFinalFilterFirst, DevNoPmgrCheck, DevStopAtUnknown,
+          DevNoRecheckAtLaunch, DevLaunchOutsideLock, DevRegisterAfterSubmit, DevReportForMate
 
 VARIABLES kind, lv, cs, pre, ctl, closed, nreq, last,
-          named, ext, jobc, annc, owed
+          wk,             \* the bulk work() is busy with
+          wph,            \* "idle" | "staging" | "submit" (lock held)
+          mates,          \* per pilot: the bulk it was submitted in
+          jdone,          \* pilots whose batch job reported a final state
+          named, ext, jobc, annc, owed, rep, wrong
 
-vars == <<kind, lv, cs, pre, ctl, closed, nreq, last, named, ext, jobc, annc, owed>>
+vars == <<kind, lv, cs, pre, ctl, closed, nreq, last, wk, wph, mates, jdone,
+          named, ext, jobc, annc, owed, rep, wrong>>
+wvars == <<wk, wph, mates>>
 
 Uids == Pilots \cup {Ghost}
 Perms == Permutations(Pilots)       \* the pilots are interchangeable (cfg: SYMMETRY Perms)
@@ -50,7 +80,8 @@ Init ==
   /\ kind \in [Pilots -> {"saga", "psij"}]
   /\ lv = [p \in Pilots |-> "none"] /\ cs = [p \in Pilots |-> "PEND"]
   /\ pre = {} /\ ctl = <<>> /\ closed = FALSE /\ nreq = 0 /\ last = "init"
-  /\ named = {} /\ ext = {} /\ owed = {}
+  /\ named = {} /\ ext = {} /\ owed = {} /\ rep = {} /\ wrong = FALSE
+  /\ wk = {} /\ wph = "idle" /\ mates = [p \in Pilots |-> {}] /\ jdone = {}
   /\ jobc = [p \in Pilots |-> FALSE] /\ annc = [p \in Pilots |-> FALSE]
 
 LView(u)   == IF u \in Pilots THEN lv[u] ELSE "none"
@@ -59,33 +90,65 @@ LaunchedP  == {p \in Pilots : Launched(lv[p])}
 Seen(p, s) == IF closed THEN cs[p] ELSE CNext(cs[p], s)
 
 (* ---- environment ----------------------------------------------------------- *)
-\* the launcher's work() gets a bulk of pilots
-Work(S) ==
-  /\ S # {} /\ \A p \in S : lv[p] = "none"
-  /\ LET drop == IF DevLaunchPrecancelled THEN {} ELSE S \cap pre IN
-     /\ lv'   = [p \in Pilots |-> IF p \in drop THEN "dropped" ELSE IF p \in S THEN "live" ELSE lv[p]]
+\* the launcher's work() gets a bulk of pilots: those a kill named already are dropped
+\* (CANCELED), the others are prepared and staged
+WorkBegin(S) ==
+  /\ wph = "idle" /\ S # {} /\ \A p \in S : lv[p] = "none"
+  /\ LET drop == S \cap pre IN
+     /\ lv'   = [p \in Pilots |-> IF p \in drop THEN "dropped" ELSE lv[p]]
      /\ annc' = [p \in Pilots |-> annc[p] \/ p \in drop]
      /\ cs'   = [p \in Pilots |-> IF p \in drop THEN Seen(p, "CANCELED")
                                   ELSE IF p \in S THEN Seen(p, "LAUNCH") ELSE cs[p]]
-     /\ owed' = owed \cup ((S \cap pre) \ drop)
-  /\ last' = "work"
-  /\ UNCHANGED <<kind, pre, ctl, closed, nreq, named, ext, jobc>>
+     /\ wk'   = S \ drop
+     /\ wph'  = IF S \ drop = {} THEN "idle" ELSE "staging"
+  /\ last' = "work_begin"
+  /\ UNCHANGED <<kind, pre, ctl, closed, nreq, mates, jdone, named, ext, jobc, owed, rep, wrong>>
+
+\* staging is done, the lock is taken; pilots remembered meanwhile are dropped
+LaunchBegin ==
+  /\ wph = "staging"
+  /\ LET late == IF DevNoRecheckAtLaunch THEN {} ELSE wk \cap pre IN
+     /\ lv'   = [p \in Pilots |-> IF p \in late THEN "dropped" ELSE lv[p]]
+     /\ annc' = [p \in Pilots |-> annc[p] \/ p \in late]
+     /\ cs'   = [p \in Pilots |-> IF p \in late THEN Seen(p, "CANCELED") ELSE cs[p]]
+     /\ wk'   = wk \ late
+     /\ wph'  = IF wk \ late = {} THEN "idle" ELSE "submit"
+  /\ last' = "launch_begin"
+  /\ UNCHANGED <<kind, pre, ctl, closed, nreq, mates, jdone, named, ext, jobc, owed, rep, wrong>>
+
+\* the jobs are submitted, the pilots registered, the lock released.  A pilot which is
+\* remembered for cancellation and gets registered all the same: its kill is lost
+LaunchEnd ==
+  /\ wph = "submit"
+  /\ lv'    = [p \in Pilots |-> IF p \in wk THEN "live" ELSE lv[p]]
+  /\ mates' = [p \in Pilots |-> IF p \in wk THEN wk ELSE mates[p]]
+  /\ owed'  = owed \cup {p \in wk \cap pre : ~jobc[p]}
+  /\ wk' = {} /\ wph' = "idle" /\ last' = "launch_end"
+  /\ UNCHANGED <<kind, cs, pre, ctl, closed, nreq, jdone, named, ext, jobc, annc, rep, wrong>>
 
 \* the agent reports in
 Active(p) ==
-  /\ lv[p] = "live" /\ cs[p] = "LAUNCH" /\ ~closed
+  /\ lv[p] = "live" /\ cs[p] = "LAUNCH" /\ ~closed /\ p \notin jdone
   /\ cs' = [cs EXCEPT ![p] = "ACTIVE"] /\ last' = "active"
-  /\ UNCHANGED <<kind, lv, pre, ctl, closed, nreq, named, ext, jobc, annc, owed>>
+  /\ UNCHANGED <<kind, lv, pre, ctl, closed, nreq, wvars, jdone, named, ext, jobc, annc, owed, rep, wrong>>
 
-\* the batch system reports the end of a job; CANCELED without a cancel request of
-\* the launcher is the environment's doing (administrator, wall time policy)
-JobEnds(p, s) ==
-  /\ lv[p] = "live" /\ s \in Final
-  /\ ext' = IF s = "CANCELED" /\ ~jobc[p] THEN ext \cup {p} ELSE ext
-  /\ lv' = [lv EXCEPT ![p] = s] /\ cs' = [cs EXCEPT ![p] = Seen(p, s)]
-  /\ annc' = [annc EXCEPT ![p] = annc[p] \/ s = "CANCELED"]
+\* the batch layer reports the end of a job - at any time from inside the submission on.
+\* CANCELED without a cancel request of the launcher is the environment's doing.
+\* q is the pilot the launcher reports the state for (intended: p itself)
+JobEnds(p, s, q) ==
+  /\ s \in Final /\ p \notin jdone
+  /\ lv[p] = "live" \/ (wph = "submit" /\ p \in wk)
+  /\ q = p \/ (DevReportForMate /\ kind[p] = "saga" /\ lv[p] = "live" /\ q \in mates[p] /\ lv[q] = "live")
+  /\ LET lost == DevRegisterAfterSubmit /\ kind[p] = "psij" /\ lv[p] # "live" IN
+     /\ jdone' = jdone \cup {p}
+     /\ rep'   = IF closed THEN rep ELSE rep \cup {p}
+     /\ ext'   = IF s = "CANCELED" /\ ~jobc[p] THEN ext \cup {p} ELSE ext
+     /\ wrong' = (wrong \/ q # p)
+     /\ lv'    = IF lost \/ lv[q] # "live" THEN lv ELSE [lv EXCEPT ![q] = s]
+     /\ cs'    = IF lost THEN cs ELSE [cs EXCEPT ![q] = Seen(q, s)]
+     /\ annc'  = IF lost THEN annc ELSE [annc EXCEPT ![q] = annc[q] \/ s = "CANCELED"]
   /\ last' = "job_ends"
-  /\ UNCHANGED <<kind, pre, ctl, closed, nreq, named, jobc, owed>>
+  /\ UNCHANGED <<kind, pre, ctl, closed, nreq, wvars, named, jobc, owed>>
 
 (* ---- requests ---------------------------------------------------------------- *)
 CanReq(n) == ~closed /\ nreq < MaxReq /\ Len(ctl) + n <= MaxCtl
@@ -97,7 +160,7 @@ ReqKill(U) ==
   /\ LET V == IF U = {} THEN Pilots ELSE U IN
      /\ named' = named \cup (V \cap Pilots)
      /\ ctl'   = IF Ghost \in V THEN ctl ELSE Append(ctl, Msg("kill", TRUE, V))
-  /\ UNCHANGED <<kind, lv, cs, pre, closed, ext, jobc, annc, owed>>
+  /\ UNCHANGED <<kind, lv, cs, pre, closed, ext, jobc, annc, owed, wvars, jdone, rep, wrong>>
 
 \* PilotManager.cancel_pilots(uids): a message for the agents; the launcher has no part
 ReqCancel(U) ==
@@ -105,25 +168,26 @@ ReqCancel(U) ==
   /\ LET V == IF U = {} THEN Pilots ELSE U IN
      /\ named' = named \cup (V \cap Pilots)
      /\ ctl'   = Append(ctl, Msg("cancel", TRUE, V))
-  /\ UNCHANGED <<kind, lv, cs, pre, closed, ext, jobc, annc, owed>>
+  /\ UNCHANGED <<kind, lv, cs, pre, closed, ext, jobc, annc, owed, wvars, jdone, rep, wrong>>
 
 \* a kill_pilots control message as such: any uids, also none ("all you launched")
 ReqRaw(U, own) ==
   /\ CanReq(1) /\ nreq' = nreq + 1 /\ last' = "req_raw"
   /\ named' = IF own THEN named \cup (IF U = {} THEN Pilots ELSE U \cap Pilots) ELSE named
   /\ ctl'   = Append(ctl, Msg("kill", own, U))
-  /\ UNCHANGED <<kind, lv, cs, pre, closed, ext, jobc, annc, owed>>
+  /\ UNCHANGED <<kind, lv, cs, pre, closed, ext, jobc, annc, owed, wvars, jdone, rep, wrong>>
 
 \* PilotManager.close(): cancel all, kill all, stop listening
 Close ==
   /\ CanReq(2) /\ nreq' = nreq + 1 /\ last' = "close"
   /\ named' = Pilots /\ closed' = TRUE
   /\ ctl' = ctl \o <<Msg("cancel", TRUE, Pilots), Msg("kill", TRUE, Pilots)>>
-  /\ UNCHANGED <<kind, lv, cs, pre, ext, jobc, annc, owed>>
+  /\ UNCHANGED <<kind, lv, cs, pre, ext, jobc, annc, owed, wvars, jdone, rep, wrong>>
 
 (* ---- the launcher gets a control message --------------------------------------- *)
+\* (not while work() holds the lock for the submission: the control thread waits)
 Deliver ==
-  /\ ctl # <<>>
+  /\ ctl # <<>> /\ (wph # "submit" \/ DevLaunchOutsideLock)
   /\ LET m    == Head(ctl)
          on   == m.cmd = "kill" /\ (m.own \/ DevNoPmgrCheck)
          U0   == IF DevFinalFilterFirst THEN {u \in m.U : LView(u) \notin Final} ELSE m.U
@@ -143,10 +207,11 @@ Deliver ==
      /\ owed' = owed \cup {p \in mean : \/ OwesJobCancel(lv[p]) /\ ~jobc'[p]
                                         \/ OwesRemember(lv[p])  /\ p \notin pre'}
   /\ last' = "deliver"
-  /\ UNCHANGED <<kind, closed, nreq, named, ext>>
+  /\ UNCHANGED <<kind, closed, nreq, named, ext, wvars, jdone, rep, wrong>>
 
-Next == \/ \E S \in SUBSET Pilots : Work(S)
-        \/ \E p \in Pilots : Active(p) \/ \E s \in Final : JobEnds(p, s)
+Next == \/ \E S \in SUBSET Pilots : WorkBegin(S)
+        \/ LaunchBegin \/ LaunchEnd
+        \/ \E p \in Pilots : Active(p) \/ \E s \in Final, q \in Pilots : JobEnds(p, s, q)
         \/ \E U \in SUBSET Uids : ReqKill(U) \/ ReqCancel(U) \/ ReqRaw(U, TRUE) \/ ReqRaw(U, FALSE)
         \/ Close \/ Deliver
 Spec == Init /\ [][Next]_vars
@@ -154,6 +219,7 @@ Spec == Init /\ [][Next]_vars
 (* ---- properties ------------------------------------------------------------------ *)
 TypeOK == /\ \A p \in Pilots : lv[p] \in LViews /\ cs[p] \in CViews
           /\ pre \subseteq Uids /\ named \subseteq Pilots /\ ext \subseteq Pilots /\ owed \subseteq Pilots
+          /\ wk \subseteq Pilots /\ wph \in {"idle", "staging", "submit"} /\ jdone \subseteq Pilots
 
 \* C14.KilledNotNamed: a pilot nobody named is never canceled - its batch job is not
 \* canceled, it is not remembered for cancellation, the launcher announces CANCELED for it
@@ -166,6 +232,11 @@ InvKilledNotNamed ==
 \* C14.NamedNotKilled: a delivered kill cancels the job of every launched, non-final pilot it
 \* means and remembers the ones which did not arrive yet; those are not launched later
 InvNamedKilled == owed = {}
+\* C15.PilotFinalNotReported: a final job state the batch layer reported - also from inside
+\* the submission - made the pilot final at the client (Pilot.wait / wait_pilots return)
+InvFinalReported == \A p \in rep : cs[p] \in Final
+\* C14.StateForWrongPilot: a job state is published for the pilot the job belongs to
+InvRightPilot == ~wrong
 \* a final state at the client is kept
 ActFinalKept == [][\A p \in Pilots : cs[p] \in Final => cs'[p] = cs[p]]_vars
 =============================================================================
